@@ -2,6 +2,8 @@ import Driver.Codec
 import WebAuthnModel.Model.KeyDesc
 import WebAuthnModel.Model.Url
 import WebAuthnModel.Model.Json
+import WebAuthnModel.Model.Tpm2
+import Driver.Asks
 /- JSON form of `encoding/asn1` struct values: a struct is the array of its members in declaration order; integers travel as
    decimal strings (int64 does not fit a JSON double), byte strings as hex or null (nil), integer lists as arrays or null. -/
 namespace Driver
@@ -89,6 +91,26 @@ def handleAsn1 (op : String) (j : Json) : Except String (Option Json) := do
     match Json.clientData (← getHex j "raw") with
     | some f => return some (Json.mkObj [("ok", true), ("type", hex f.type), ("challenge", hex f.challenge), ("origin", hex f.origin)])
     | none => return some (Json.mkObj [("ok", false)])
+  | "tpm2.certInfo" =>
+    let hs ← (← getArr j "hashes").toList.mapM fun p => do
+      match p with
+      | Json.arr #[a, b] => pure ((← a.getNat?), (← b.getNat?))
+      | _ => throw "hashes: expected [alg, id] pairs"
+    match Tpm2.certInfo hs (← getHex j "raw") with
+    | none => return some (Json.mkObj [("ok", false)])
+    | some ci =>
+      let (kind, alg, val) : String × Nat × Bytes := match ci.name with
+        | .none => ("none", 0, [])
+        | .handle => ("handle", 0, [])
+        | .digest a v => ("digest", a, v)
+      return some (Json.mkObj [("ok", true), ("magic", ci.magic), ("type", ci.type), ("extraData", hex ci.extraData),
+        ("hasCertifyInfo", ci.hasCertifyInfo), ("nameKind", kind), ("nameAlg", alg), ("nameValue", hex val), ("encoded", optHex ci.encoded)])
+  | "tpm2.pubArea" =>
+    match Tpm2.pubArea (← getHex j "raw") with
+    | none => return some (Json.mkObj [("ok", false)])
+    | some pa =>
+      return some (Json.mkObj [("ok", true), ("nameAlg", pa.nameAlg), ("key", match pa.key with | some k => keyMatJson k | none => Json.null),
+        ("encoded", optHex pa.encoded)])
   | "url.host" =>
     match Url.hostOf (← getHex j "s") with
     | some h => return some (Json.mkObj [("ok", true), ("host", hex h)])
